@@ -56,3 +56,34 @@ SPECS["C17"] = dict(
         H("config_h", "c17_same_k7", tier="thorough", symbolic="stake[7]", asserts="as same_k4"),
     ],
 )
+
+# --------------------------------------------------------------------------------------------- C03
+SPECS["C03"] = dict(
+    level="model_checking",
+    technique="bounded symbolic execution of the real Core::make_vote / process_block / local_timeout_round (Kani/CBMC, SAT)",
+    bounds="all u64 rounds (below 2^64-1) for block, QC, TC, last_voted_round; TC of exactly 3 entries; committee 4 x stake 1",
+    outside="TCs with other entry counts; rounds >= 2^63 in multi-step harnesses; real ed25519",
+    trusted_base=TB_L,
+    assumptions=["ideal signatures", "rounds below 2^63 (a certificate for a higher round needs a quorum of signatures)"],
+    harnesses=[
+        H("core_h", "c03_make_vote_no_tc", symbolic="last_voted_round, block.round, qc.round: u64; parent digest", asserts="vote <=> round>last_voted && qc.round+1==round; vote fields; last_voted_round update"),
+        H("core_h", "c03_make_vote_tc", symbolic="last_voted_round, block.round, qc.round, tc.round, 3 high_qc rounds: u64", asserts="vote <=> round>last_voted && (qc.round+1==round || (tc.round+1==round && qc.round>=max hq))"),
+    ],
+)
+# --------------------------------------------------------------------------------------------- C02
+SPECS["C02"] = dict(
+    level="model_checking",
+    technique="bounded symbolic execution of the real Core::commit / Synchronizer::get_parent_block over a symbolic stored chain (Kani/CBMC, SAT)",
+    bounds="chains of 1..4 blocks above genesis (thorough: 5) with arbitrary strictly increasing u64 rounds (< 2^62), any already-delivered prefix; real bincode (de)serialisation of the stored blocks",
+    outside="longer chains; blocks with payload/TC (commit does not look at them); store failures",
+    trusted_base=TB_L,
+    assumptions=["abstract hash collision-free on the chain universe", "store holds every ancestor (representation invariant of process_block)"],
+    harnesses=[
+        H("core_h", "c02_commit_chain1", timeout=300, stubbing=True, symbolic="round of 1 block, delivered prefix", asserts="delivered sequence == undelivered chain suffix, oldest first; no duplicate; no genesis; idempotent"),
+        H("core_h", "c02_commit_chain2", timeout=300, stubbing=True, symbolic="rounds of 2 blocks, delivered prefix j<2", asserts="as chain1"),
+        H("core_h", "c02_commit_chain3", timeout=300, stubbing=True, symbolic="rounds of 3 blocks, delivered prefix j<3", asserts="as chain1"),
+        H("core_h", "c02_commit_chain4", symbolic="rounds of 4 blocks, delivered prefix j<4", asserts="as chain1", timeout=600, stubbing=True),
+    ],
+)
+
+SPECS["DBG"] = dict(harnesses=[H("core_h", "dbg_ser_de", timeout=120, need_cover=False, stubbing=True), H("core_h", "dbg_store_de", timeout=120, need_cover=False, stubbing=True)])
